@@ -27,6 +27,7 @@ def sha(path):
 _JOBS = []
 _ENG = None
 REVEALS = {}
+_RETRY = set()
 
 
 def _work(k):
@@ -36,7 +37,13 @@ def _work(k):
         if kind == "inst":
             name, idx, inst, fuel, tmo, params, second = payload
             _ENG.current_reveals = REVEALS.get(name, ())
-            r = solve.discharge(_ENG, inst, timeout_ms=tmo, fuel=fuel, params=params, second_backend=second)
+            if k in _RETRY:
+                # second round for an instance no back end decided in the first one (machine load, unlucky seed): three times
+                # the budget, the in-process solver gets the whole of it at once, few processes in parallel
+                r = solve.discharge(_ENG, inst, timeout_ms=3 * tmo, fuel=fuel, params=params, second_backend=second, first_ms=3 * tmo)
+                r["retried"] = True
+            else:
+                r = solve.discharge(_ENG, inst, timeout_ms=tmo, fuel=fuel, params=params, second_backend=second)
             r["info"] = {k2: v for k2, v in (inst.info or {}).items() if isinstance(v, (str, int))}
             return k, r
         if kind == "canary":
@@ -180,6 +187,15 @@ def run(args):
         ctx = mp.get_context("fork")
         with ctx.Pool(min(args.jobs, max(1, len(_JOBS)))) as pool:
             for k, r in pool.imap_unordered(_work, range(len(_JOBS)), chunksize=1):
+                results[k] = r
+    again = [k for k, ((kind, _p), r) in enumerate(zip(_JOBS, results))
+             if kind == "inst" and (r.get("verdict") == "timeout" or str(r.get("verdict", "")).startswith("unknown"))]
+    if again:
+        _RETRY.update(again)
+        ctx = mp.get_context("fork")
+        with ctx.Pool(min(4, len(again))) as pool:
+            for k, r in pool.imap_unordered(_work, again, chunksize=1):
+                r["first_round_seconds"] = results[k].get("seconds", 0)
                 results[k] = r
     vacuous, crashes, canary_groups = [], [], {}
     for (kind, payload), r in zip(_JOBS, results):
@@ -420,6 +436,7 @@ def run(args):
                                 for o in ob_index.values()],
             "path_queries": sum(o["n_instances"] for o in ob_index.values()),
             "solver_time_s": solver_time, "vcgen_time_s": round(t_vcgen, 2),
+            "instances_decided_in_second_round": len(again),
             "assumed_contracts": assumed_contracts,
             "assumption_scan": assumption_scan,
             "bounded_components": [{k: v for k, v in comp.items() if k != "violations"} for comp in bounded],
